@@ -3164,8 +3164,11 @@ HP_read(filerec_t *file_rec, void *buf, int32 bytes)
             HGOTO_ERROR(DFE_INTERNAL, FAIL);
     } /* end if */
 
-    if (HI_READ(file_rec->file, buf, bytes) == FAIL)
+    if (HI_READ(file_rec->file, buf, bytes) == FAIL) {
+        /* the stream position is unknown after a failed/short transfer */
+        file_rec->last_op = H4_OP_UNKNOWN;
         HGOTO_ERROR(DFE_READERROR, FAIL);
+    }
     file_rec->f_cur_off += bytes;
     file_rec->last_op = H4_OP_READ;
 done:
@@ -3256,8 +3259,11 @@ HP_write(filerec_t *file_rec, const void *buf, int32 bytes)
             HGOTO_ERROR(DFE_INTERNAL, FAIL);
     }
 
-    if (HI_WRITE(file_rec->file, buf, bytes) == FAIL)
+    if (HI_WRITE(file_rec->file, buf, bytes) == FAIL) {
+        /* the stream position is unknown after a failed/short transfer */
+        file_rec->last_op = H4_OP_UNKNOWN;
         HGOTO_ERROR(DFE_WRITEERROR, FAIL);
+    }
     file_rec->f_cur_off += bytes;
     file_rec->last_op = H4_OP_WRITE;
 
